@@ -79,10 +79,39 @@ fn alloc_limit_hit() -> ! {
     unsafe { _exit(140) }
 }
 
+#[repr(C)]
+struct StackT {
+    ss_sp: *mut u8,
+    ss_flags: i32,
+    ss_size: usize,
+}
+#[repr(C)]
+struct SigAction {
+    sa_handler: usize,
+    sa_mask: [u64; 16],
+    sa_flags: i32,
+    sa_restorer: usize,
+}
+extern "C" {
+    fn sigaltstack(ss: *const StackT, old: *mut StackT) -> i32;
+    fn sigaction(sig: i32, act: *const SigAction, old: *mut SigAction) -> i32;
+}
+const SA_ONSTACK: i32 = 0x0800_0000;
+
+/// SIGSEGV / SIGBUS handlers running on an alternate stack of the CALLING thread, so that a stack
+/// overflow (deeply nested values) is attributed to its op line like any other fault.
 pub fn install_handlers() {
     unsafe {
-        signal(11, on_fault as usize);
-        signal(7, on_fault as usize);
+        let size = 1 << 16;
+        let sp = Box::leak(vec![0u8; size].into_boxed_slice()).as_mut_ptr();
+        let ss = StackT { ss_sp: sp, ss_flags: 0, ss_size: size };
+        sigaltstack(&ss, std::ptr::null_mut());
+        for sig in [11, 7] {
+            let act = SigAction { sa_handler: on_fault as usize, sa_mask: [0; 16], sa_flags: SA_ONSTACK, sa_restorer: 0 };
+            if sigaction(sig, &act, std::ptr::null_mut()) != 0 {
+                signal(sig, on_fault as usize);
+            }
+        }
     }
 }
 
